@@ -797,7 +797,8 @@ def model_check(name, cases, base, max_rows=None):
     """Model vs implementation inside Coq for every (file, txn) of the base cases that carries oracle tables.
     Returns (failing [(ci, ti, codes)], n_rows, discarded {reason: n}, err)."""
     defs, rows, where, disc = {}, [], [], {}
-    for ci, (c, jr) in enumerate(zip(cases, base)):
+    # corpus / boundary cases are appended last by the checks: go backwards so that a row cap drops random cases, not them
+    for ci, (c, jr) in reversed(list(enumerate(zip(cases, base)))):
         if 'parse_error' in jr or 'harness_error' in jr:
             hist_add(disc, 'not-loaded')
             continue
@@ -818,6 +819,7 @@ def model_check(name, cases, base, max_rows=None):
                 hist_add(disc, 'no-oracle-table:' + str(tr.get('oracle_error', ''))[:60])
                 continue
             if max_rows is not None and len(rows) >= max_rows:
+                hist_add(disc, 'over-quick-tier-row-cap')
                 break
             rows.append(([fname], coq_engine_case(fname, jr, t, tr) if c['kind'] == 'rules'
                          else coq_legacy_case(fname, jr, c['file'], t, tr)))
